@@ -523,10 +523,25 @@ def getslice(interp, st, o, lo, hi, step, node=None):
             return
     if isinstance(o, (VStr, VBytes)):
         n = seq_len(o)
+        if not isinstance(n, int):
+            from .builtins_model2 import known_length
+            k = known_length(st, o.v)
+            if k is not None:
+                n = k
         a = 0 if lo is VNone else norm_index(idx_int(lo), n)
         b = n if hi is VNone else norm_index(idx_int(hi), n)
         if o.concrete and isinstance(a, int) and isinstance(b, int):
             yield st, lift(o.v[a:b])
+            return
+        if isinstance(a, int) and isinstance(b, int) and isinstance(o, VBytes):
+            # concrete positions in a byte string of known length: keep the (concrete) length with the slice
+            from .segs import VSegs
+            if a == 0 and b == n:
+                yield st, o
+            elif b <= a:
+                yield st, VBytes(b'')
+            else:
+                yield st, VSegs([('sym', z3.SubString(o.term(), a, b - a), b - a)])
             return
         a, b = iterm(a), iterm(b)
         ln = z3.If(b - a > 0, b - a, z3.IntVal(0))
